@@ -22,6 +22,7 @@ type Mutex struct {
 	gen   uint64
 }
 
+//go:norace
 func (m *Mutex) fix() {
 	if g := zsim.S.Gen; m.gen != g {
 		m.gen = g
@@ -29,6 +30,7 @@ func (m *Mutex) fix() {
 	}
 }
 
+//go:norace
 func (m *Mutex) Lock() {
 	if zsim.S == nil {
 		m.real.Lock()
@@ -53,6 +55,7 @@ func (m *Mutex) Lock() {
 	raceAcquire(m)
 }
 
+//go:norace
 func (m *Mutex) TryLock() bool {
 	if zsim.S == nil {
 		return m.real.TryLock()
@@ -70,6 +73,7 @@ func (m *Mutex) TryLock() bool {
 	return true
 }
 
+//go:norace
 func (m *Mutex) Unlock() {
 	if zsim.S == nil {
 		m.real.Unlock()
@@ -89,6 +93,8 @@ func (m *Mutex) Unlock() {
 }
 
 // unlockNoYield is used by Cond.Wait (enqueue+unlock is atomic there).
+//
+//go:norace
 func (m *Mutex) unlockNoYield() {
 	m.fix()
 	raceRelease(m)
@@ -104,6 +110,7 @@ type RWMutex struct {
 	gen     uint64
 }
 
+//go:norace
 func (m *RWMutex) fix() {
 	if g := zsim.S.Gen; m.gen != g {
 		m.gen = g
@@ -112,6 +119,7 @@ func (m *RWMutex) fix() {
 	}
 }
 
+//go:norace
 func (m *RWMutex) Lock() {
 	if zsim.S == nil {
 		m.real.Lock()
@@ -133,6 +141,7 @@ func (m *RWMutex) Lock() {
 	raceAcquire(m)
 }
 
+//go:norace
 func (m *RWMutex) Unlock() {
 	if zsim.S == nil {
 		m.real.Unlock()
@@ -146,6 +155,7 @@ func (m *RWMutex) Unlock() {
 	}
 }
 
+//go:norace
 func (m *RWMutex) RLock() {
 	if zsim.S == nil {
 		m.real.RLock()
@@ -167,6 +177,7 @@ func (m *RWMutex) RLock() {
 	raceAcquire(m)
 }
 
+//go:norace
 func (m *RWMutex) RUnlock() {
 	if zsim.S == nil {
 		m.real.RUnlock()
@@ -182,6 +193,7 @@ func (m *RWMutex) RUnlock() {
 	}
 }
 
+//go:norace
 func (m *RWMutex) TryLock() bool {
 	if zsim.S == nil {
 		return m.real.TryLock()
@@ -194,6 +206,7 @@ func (m *RWMutex) TryLock() bool {
 	return true
 }
 
+//go:norace
 func (m *RWMutex) TryRLock() bool {
 	if zsim.S == nil {
 		return m.real.TryRLock()
@@ -208,9 +221,13 @@ func (m *RWMutex) TryRLock() bool {
 
 type rlocker RWMutex
 
-func (r *rlocker) Lock()   { (*RWMutex)(r).RLock() }
+//go:norace
+func (r *rlocker) Lock() { (*RWMutex)(r).RLock() }
+
+//go:norace
 func (r *rlocker) Unlock() { (*RWMutex)(r).RUnlock() }
 
+//go:norace
 func (m *RWMutex) RLocker() Locker { return (*rlocker)(m) }
 
 // ---------------------------------------------------------------- Cond
@@ -227,10 +244,12 @@ type Cond struct {
 	gen     uint64
 }
 
+//go:norace
 func NewCond(l Locker) *Cond {
 	return &Cond{L: l, real: sync.NewCond(l)}
 }
 
+//go:norace
 func (c *Cond) fix() {
 	if g := zsim.S.Gen; c.gen != g {
 		c.gen = g
@@ -238,6 +257,7 @@ func (c *Cond) fix() {
 	}
 }
 
+//go:norace
 func (c *Cond) Wait() {
 	if zsim.S == nil {
 		if c.real == nil {
@@ -266,6 +286,7 @@ func (c *Cond) Wait() {
 	c.L.Lock()
 }
 
+//go:norace
 func (c *Cond) Signal() {
 	if zsim.S == nil {
 		if c.real == nil {
@@ -287,9 +308,13 @@ func (c *Cond) Signal() {
 		i = zsim.S.Ch.Intn(len(c.waiters))
 	}
 	c.waiters[i].signaled = true
-	c.waiters = append(c.waiters[:i:i], c.waiters[i+1:]...)
+	for k := i; k+1 < len(c.waiters); k++ {
+		c.waiters[k] = c.waiters[k+1]
+	}
+	c.waiters = c.waiters[:len(c.waiters)-1]
 }
 
+//go:norace
 func (c *Cond) Broadcast() {
 	if zsim.S == nil {
 		if c.real == nil {
@@ -323,6 +348,7 @@ type Once struct {
 	gen     uint64
 }
 
+//go:norace
 func (o *Once) Do(f func()) {
 	if zsim.S == nil {
 		if o.done {
@@ -352,17 +378,20 @@ func (o *Once) Do(f func()) {
 	f()
 }
 
+//go:norace
 func OnceFunc(f func()) func() {
 	var o Once
 	return func() { o.Do(f) }
 }
 
+//go:norace
 func OnceValue[T any](f func() T) func() T {
 	var o Once
 	var v T
 	return func() T { o.Do(func() { v = f() }); return v }
 }
 
+//go:norace
 func OnceValues[T1, T2 any](f func() (T1, T2)) func() (T1, T2) {
 	var o Once
 	var v1 T1
@@ -378,6 +407,7 @@ type WaitGroup struct {
 	gen  uint64
 }
 
+//go:norace
 func (w *WaitGroup) fix() {
 	if g := zsim.S.Gen; w.gen != g {
 		w.gen = g
@@ -385,6 +415,7 @@ func (w *WaitGroup) fix() {
 	}
 }
 
+//go:norace
 func (w *WaitGroup) Add(d int) {
 	if zsim.S == nil {
 		w.real.Add(d)
@@ -400,8 +431,10 @@ func (w *WaitGroup) Add(d int) {
 	}
 }
 
+//go:norace
 func (w *WaitGroup) Done() { w.Add(-1) }
 
+//go:norace
 func (w *WaitGroup) Wait() {
 	if zsim.S == nil {
 		w.real.Wait()
@@ -420,6 +453,7 @@ func (w *WaitGroup) Wait() {
 	}
 }
 
+//go:norace
 func itoa(n int) string {
 	if n < 0 {
 		return "-"
